@@ -365,6 +365,33 @@ def _parser_defaults(fx):
     return out
 
 
+def _decorator_layers(fx, fn):
+    """The wrapper functions a serialiser's decorators put around it, innermost first, as (wrapper FunctionDef, sets __wrapped__):
+    `colorful(...)` gives writers.colorful.decorate.wrapper; a decorator defined in the module that returns an inner function gives that
+    function (functools.wraps on it sets __wrapped__).  Any other decorator: UNKNOWN."""
+    out = []
+    for dec in reversed(fn.decorator_list):
+        if isinstance(dec, ast.Call) and src.call_name(dec) == 'colorful':
+            out.append((fx.fn('writers', 'colorful.decorate.wrapper'), True))
+            continue
+        name = dec.id if isinstance(dec, ast.Name) else None
+        try:
+            dfn = fx.fn('writers', name) if name else None
+        except Exception:
+            dfn = None
+        inner = None
+        if isinstance(dfn, ast.FunctionDef):
+            rets = [st.value.id for st in dfn.body if isinstance(st, ast.Return) and isinstance(st.value, ast.Name)]
+            inner = next((st for st in dfn.body if isinstance(st, ast.FunctionDef) and st.name in rets), None)
+            if inner is None and len(dfn.args.args) == 1 and rets == [dfn.args.args[0].arg]:
+                continue        # returns the function it was given (a registration decorator): no layer
+        if inner is None:
+            raise Unknown(f'decorator `{ast.unparse(dec)[:40]}` of writers.{fn.name}: not a wrapper-returning decorator of the module this rule can read')
+        wraps = any(isinstance(x, ast.Call) and (src.call_name(x) or '').split('.')[-1] == 'wraps' for x in inner.decorator_list)
+        out.append((inner, wraps))
+    return out
+
+
 def _writer_kw(fx):
     """{ext: {keyword: default expr}} as cli computes it: parameters with defaults of the dispatch target and its __wrapped__."""
     table = fx.forest.module_assign('writers', '_VALID_SERIALIZERS')
@@ -374,6 +401,13 @@ def _writer_kw(fx):
     for k, v in zip(table.keys, table.values):
         fn = fx.fn('writers', v.id)
         d = dict(src.param_defaults(fn))
+        for layer, _ in _decorator_layers(fx, fn):
+            if layer is not wrapper:
+                # a pass-through wrapper accepts its own optional parameters and, through **keywords, those of what it wraps
+                if layer.args.kwarg is None:
+                    d = {}
+                for nm, dv in dict(src.param_defaults(layer)).items():
+                    d.setdefault(nm, dv)
         if any(isinstance(x, ast.Call) and src.call_name(x) == 'colorful' for x in fn.decorator_list):
             wd = dict(src.param_defaults(wrapper))
             # dark / light defaults come from the decorator arguments
@@ -602,8 +636,8 @@ def r4(fx):
     for k, v in zip(table.keys, table.values):
         fn = fx.fn('writers', v.id)
         d = _FnDesc(fn)
-        if any(isinstance(x, ast.Call) and src.call_name(x) == 'colorful' for x in fn.decorator_list):
-            d = _FnDesc(wrapper, wrapped=d, name=fn.name)
+        for layer, wraps in _decorator_layers(fx, fn):
+            d = _FnDesc(layer, wrapped=d, name=fn.name) if wraps else _FnDesc(layer)
         descs[k.value] = d
     from ..interp import module_namespace
     wns = module_namespace(fx.forest, 'writers', it, {'_VALID_SERIALIZERS': descs})
